@@ -10,8 +10,11 @@ type Heap[T any] struct {
 	F1 bool
 	// F2: removal at an interior offset never sifts the relocated element up.
 	F2 bool
-	// F1Pop: when F2 is absent (repaired), the sift-up after removal also goes
-	// through slot i/2, i.e. the repair simply calls the existing pushUp.
+	// F1Pop: when F2 is absent, the sift-up after removal also goes through
+	// slot i/2.  NOT among the Variants: on the pinned tree the wrong parent is
+	// only ever used by Add, so a removal that sifts up through i/2 is a
+	// failure at a new call site and has to be reported (seeded change
+	// C05-r5-pop-pushup-after-pushdown).
 	F1Pop bool
 	Data  []T
 	Cmp   func(a, b T) int
@@ -86,12 +89,11 @@ func (h *Heap[T]) Set(vs []T) {
 	}
 }
 
-// Variants returns the deviation models tried by the triage: {F1} with F2
-// repaired through the existing pushUp, {F2}, {F1,F2} (the pinned tree), and
-// {F1} with F2 repaired by a correct sift-up.
+// Variants returns the deviation models tried by the triage: {F1,F2} (the
+// pinned tree) and the two trees in which exactly one of the findings has been
+// repaired correctly: {F2} and {F1}.
 func Variants[T any](cmp func(a, b T) int) []*Heap[T] {
 	return []*Heap[T]{
-		{F1: true, F1Pop: true, Cmp: cmp},
 		{F2: true, Cmp: cmp},
 		{F1: true, F2: true, Cmp: cmp},
 		{F1: true, Cmp: cmp},
